@@ -89,10 +89,12 @@ const (
 	progNothing = iota
 	progHeader
 	progBody
-	progFlush // header pushed by a flush only
+	progFlush     // header pushed by a flush only
+	progHeader101 // the final header is 101 Switching Protocols
+	nProgs
 )
 
-var progNames = [...]string{"nothing written", "header only (WriteHeader 202)", "partial body", "header only (FlushError)"}
+var progNames = [...]string{"nothing written", "header only (WriteHeader 202)", "partial body", "header only (FlushError)", "header only (WriteHeader 101)"}
 
 const (
 	siteRoute = iota
@@ -158,6 +160,8 @@ func evalCase(cs Case) (class, msg string) {
 			c.Writer().Write([]byte("partial"))
 		case progFlush:
 			c.Writer().FlushError()
+		case progHeader101:
+			c.Writer().WriteHeader(101)
 		}
 		panic(thrown)
 	}
@@ -172,6 +176,8 @@ func evalCase(cs Case) (class, msg string) {
 			c.Writer().Write([]byte("partial"))
 		case progFlush:
 			c.Writer().FlushError()
+		case progHeader101:
+			c.Writer().WriteHeader(101)
 		}
 		switch cs.Site {
 		case siteHandleCtor:
@@ -279,6 +285,10 @@ func evalCase(cs Case) (class, msg string) {
 		case progFlush:
 			if rw.Code != 200 || len(rw.Body) != 0 {
 				return "started-response-touched", fmt.Sprintf("the flushed response (200, no body) became status %d with %d body bytes: %s", rw.Code, len(rw.Body), desc)
+			}
+		case progHeader101:
+			if rw.Code != 101 || len(rw.Body) != 0 || rw.Calls != 1 {
+				return "started-response-touched", fmt.Sprintf("the started response (101, no body) became status %d with %d body bytes after %d WriteHeader calls: %s", rw.Code, len(rw.Body), rw.Calls, desc)
 			}
 		}
 	}
@@ -408,10 +418,10 @@ func run(c *mc.Ctx, r *mc.Result) {
 			hs = append(hs, h)
 		}
 	}
-	r.Bounds["space"] = fmt.Sprintf("%d panic values x 4 response progress states x 9 panic sites (5 handler kinds + a middleware constructor panicking during Router.Handle / Router.Update / Txn.Handle in Updates / NewRoute issued by a handler) x %d request header spellings (6 sensitive names, each canonical / as documented / lower / upper / mixed, + none); Updates and View panicking after every prefix of a 3-operation body", len(pvs), len(hs))
+	r.Bounds["space"] = fmt.Sprintf("%d panic values x 5 response progress states x 9 panic sites (5 handler kinds + a middleware constructor panicking during Router.Handle / Router.Update / Txn.Handle in Updates / NewRoute issued by a handler) x %d request header spellings (6 sensitive names, each canonical / as documented / lower / upper / mixed, + none); Updates and View panicking after every prefix of a 3-operation body", len(pvs), len(hs))
 	idx := 0
 	for vi := range pvs {
-		for prog := 0; prog <= progFlush; prog++ {
+		for prog := 0; prog < nProgs; prog++ {
 			for site := 0; site < nSites; site++ {
 				for _, h := range hs {
 					idx++
